@@ -7,6 +7,7 @@ import (
 
 	"github.com/tuneinsight/lattigo/v6/core/rlwe"
 	"github.com/tuneinsight/lattigo/v6/multiparty"
+	"github.com/tuneinsight/lattigo/v6/ring/ringqp"
 
 	"verif/engine"
 	"verif/lib/mp"
@@ -107,6 +108,11 @@ func newWorld(c *engine.Chooser, name string, k cfg, pts []uint64) (w *world, ok
 	if k.n > 1 {
 		c.Cover("thresholdizer-history", "after-another-sharing")
 	}
+	for j := 0; j < k.n; j++ {
+		for r := 0; r < k.n; r++ {
+			c.Cover("share-buffer", [...]string{"fresh", "previous-recipient", "other-sharing"}[shareBufferKind(j, r)])
+		}
+	}
 	if worldCache.name == name && worldCache.w != nil {
 		return worldCache.w, true
 	}
@@ -153,12 +159,28 @@ func newWorld(c *engine.Chooser, name string, k cfg, pts []uint64) (w *world, ok
 			return nil, false
 		}
 		w.shares[j] = make([]multiparty.ShamirSecretShare, k.n)
+		// share-buffer history: what the output buffer of GenShamirSecretShare held before the call. Rotating over
+		// (dealer, recipient): a freshly allocated (zero) share / the dealer's single outgoing buffer, which still holds
+		// the share of the previous recipient / a buffer that holds a share of another sharing (uniform content).
+		outgoing := w.thr[j].AllocateThresholdSecretShare()
 		for r := 0; r < k.n; r++ {
-			w.shares[j][r] = w.thr[j].AllocateThresholdSecretShare()
-			w.thr[j].GenShamirSecretShare(multiparty.ShamirPublicPoint(pts[r]), pol, &w.shares[j][r])
+			var buf multiparty.ShamirSecretShare
+			kind := shareBufferKind(j, r)
+			switch kind {
+			case 0:
+				buf = w.thr[j].AllocateThresholdSecretShare()
+			case 1:
+				buf = outgoing
+			case 2:
+				buf = w.thr[j].AllocateThresholdSecretShare()
+				ringqp.NewUniformSampler(uni.KeyedPRNG(name, "stale-share", j, r), *params.RingQP()).Read(buf.Poly)
+			}
+			w.thr[j].GenShamirSecretShare(multiparty.ShamirPublicPoint(pts[r]), pol, &buf)
+			w.shares[j][r] = multiparty.ShamirSecretShare{Poly: *buf.Poly.CopyNew()}
+			outgoing.Poly.Copy(buf.Poly) // the outgoing buffer now holds the share just sent
 			want := mp.EvalShamir(w.refPol[j], pts[r])
 			if same, why := mp.FlatQP(params, w.shares[j][r].Poly, "qp").Equal(want); !same {
-				c.Fail("C15/GenShamirSecretShare/not-the-polynomial-value", "share of party %d for point %d differs from f_%d(x) computed with math/big: %s", j, pts[r], j, why)
+				c.Fail("C15/GenShamirSecretShare/not-the-polynomial-value", "share of party %d for point %d, written into %s, differs from f_%d(x) computed with math/big: %s", j, pts[r], shareBufferNames[kind], j, why)
 				return nil, false
 			}
 		}
@@ -166,11 +188,25 @@ func newWorld(c *engine.Chooser, name string, k cfg, pts []uint64) (w *world, ok
 	return w, true
 }
 
+// shareBufferKind rotates the share-buffer history over (dealer, recipient) so that every scenario with two or more
+// parties meets the three kinds.
+func shareBufferKind(dealer, recipient int) int { return (dealer + 2*recipient + 1) % 3 }
+
+var shareBufferNames = [...]string{"a fresh share", "the dealer's outgoing buffer holding the previous recipient's share", "a buffer holding a share of another sharing"}
+
 func shamirOps(w *world, name string, receiver int) mp.Ops[multiparty.ShamirSecretShare] {
 	thr := w.thr[receiver]
+	used := false
 	return mp.Ops[multiparty.ShamirSecretShare]{
 		Sig: "C15/setup", Key: fmt.Sprintf("%s#r%d", name, receiver),
-		New: func() multiparty.ShamirSecretShare { return thr.AllocateThresholdSecretShare() },
+		New: func() multiparty.ShamirSecretShare {
+			// every other aggregation output is a used buffer (holds an unrelated share), not aliasing any operand
+			out := thr.AllocateThresholdSecretShare()
+			if used = !used; used {
+				out.Poly.Copy(w.shares[(receiver+1)%w.n][receiver].Poly)
+			}
+			return out
+		},
 		Agg: func(a, b multiparty.ShamirSecretShare, out *multiparty.ShamirSecretShare) error {
 			return thr.AggregateShares(a, b, out)
 		},
@@ -382,6 +418,9 @@ func combineLeaf(c *engine.Chooser, name string, k cfg) {
 			})
 		}
 		out := rlwe.NewSecretKey(params)
+		if p%2 == 1 { // a used output: it holds the party's own key
+			out.Value.Copy(w.sks[p].Value)
+		}
 		err, pan := uni.Try(func() error {
 			return cmb.GenAdditiveShare(actPts, multiparty.ShamirPublicPoint(w.pts[p]), tsks[p], out)
 		})
